@@ -48,6 +48,21 @@ CLAIMED.update({
         technique="Coq lemmas on the analysis functions + differential correspondence of all accessors", design="7/C16"),
 })
 
+CLAIMED.update({
+    "C13": dict(
+        text="Machine-checked (Coq, closed): for EVERY sub-expression e (all constructs, any nesting), on any valid UTF-8 text shorter than 2^64 bytes, every result of the reference semantics from a state on character boundaries is again on boundaries (offset and all capture slots), lies n characters further with min_size(e) <= n, and n = min_size(e) whenever e is judged constant-size (C13_sizes_sound: the analysis facts are sound, counting characters not bytes, saturating arithmetic included); GoBack(n) steps back exactly n characters and fails, never reads before the text start, iff fewer than n precede (C13_goback_chars); equal character counts from one offset give one offset (C13_exact). Ties: T2 (the model analysis equals the REAL per-node facts read through the hook, and the compiler's LookBehindNotConst decisions equal the model's), and the real facts are compared with the actual match lengths of every sub-expression enumerated with the extracted reference semantics.",
+        note="Proved at the level of the reference semantics Sem and of the GoBack instruction; that the compiled look-behind (GoBack; body; Restore) equals Sem's 'body matches the text ending here' is part of the compiler-correctness induction (not yet proved) and is covered by the reference differential on look-behind patterns over multi-byte texts. The look-behind gate (compile error iff some alternative is not constant-size) is tied by T2, not proved. Hypotheses: literal nodes are one character, class nodes have size 1 (parser invariant; the trees come from the real parser).",
+        technique="Coq structural induction over Expr (nested lists, repeats by fuel/count induction) against the list-monad reference semantics + structural (T2) tie through the analysis hook + enumeration of match lengths with extracted Sem", design="7/C13"),
+    "C03": dict(
+        text="Machine-checked (Coq, closed): inserting (?=) before or after any sub-expression, at any depth and any number of sites (relation inj, including insertion between the elements of a concatenation), preserves group numbering and the denotation of the reference semantics for every fuel, group offset and state, hence the search result and every capture group (C03_inject_sem, C03_inject_search); an expression the analysis judges easy never reaches to_str's panic arm (C03_to_str_total). Since P and inject(P) are compiled with different VM/automata splits but have the same reference meaning, any disagreement between them on the real crate is a violation: the check compares captures_from_pos of P and inject(P) at every offset for every single injection site of generated and hand-picked base trees plus random multi-site injections, and ties the set of delegated blocks (T2).",
+        note="The VM half (every split the compiler chooses is sound w.r.t. Sem: arrows A and B of DESIGN.md) is NOT proved yet; it is covered by the P-vs-inject(P) differential, the T2/T3 ties and C01/C02's reference differential. Known finding F1 (nullable unbounded repeats handed to regex-automata). inj excludes wrapping the Alt body of a look-behind (such a pattern no longer compiles).",
+        technique="Coq induction over a custom nested induction principle for the injection relation + metamorphic differential on the real crate", design="7/C03"),
+    "C05": dict(
+        text="PARTIAL. Machine-checked (Coq, closed): at the level of the reference semantics every offset and capture slot of every result of every expression stays on a character boundary within the text (C05_reference_offsets_valid); over any SearchOK search the iterators yield only valid, ordered spans and split / try_replacen never take an out-of-order, out-of-range or off-boundary slice (C05_iter_spans_valid, C05_split_no_panic, C05_replace_no_panic); the branch stack is bounded (C07_stack_bound). NOT proved: that the compiled VM never reaches one of its panic sites and satisfies SearchOK — validated by running every public entry point of the real crate under catch_unwind on the unrestricted grammar over texts mixing 1-4 byte characters, with the model VM (all panic sites explicit outcomes) tied exactly (result and statistics).",
+        note="Known finding F-keepout-lb (\\K inside a look-behind moves the start before the search start: overlapping matches, split/replace panic) is reported as KNOWN-FINDING. Trusted: Coq kernel, extraction, harness with catch_unwind.",
+        technique="Coq invariant over the reference semantics + API-layer safety over SearchOK + differential correspondence under catch_unwind", design="7/C05"),
+})
+
 PENDING_REASON = "check not built yet in this revision (see DESIGN.md section 12 build order); not claimed until its theorem and correspondence check exist"
 
 
